@@ -13,7 +13,7 @@ the current source of `Session::handle_rx` is the model's `sessionHandleRx` (whi
 particular every early exit (parser rejects, oversized on RXC, `next_fcnt_down` refuses, MIC does not
 verify) returns `NoUpdate` with the session, configuration, region, buffer and downlink queue it was
 given; see `C05.tieA_handle_rx_accept`.  Builder X: for downlink-typed frames (`hup`); an uplink-typed frame is the
-further early exit `tieA_handle_rx_uplink_typed` (a rejected frame for C07: nothing changes).  Proved in `Props/TieA/HandleRx.lean`.  Builder S: stated for the regenerated
+further early exit `tieA_handle_rx_uplink_typed` (a rejected frame for C07: nothing changes).  Builder Y: and carrying the session's own DevAddr if it passes the size test (`haddr`); a fitting frame addressed to another device is the early exit `tieA_handle_rx_other_devaddr` (`NoUpdate`, nothing changes; an oversized one ends the Class A procedure whatever its address).  Proved in `Props/TieA/HandleRx.lean`.  Builder S: stated for the regenerated
 `handle_downlink_macs` (`TieA.Rx.Full.genOps`) on every command stream, no simulation hypothesis
 (`Props/TieA/HandleRxFull.lean`). -/
 theorem tieA_handle_rx_accept
@@ -21,13 +21,14 @@ theorem tieA_handle_rx_accept
     (rx : Gen.SessionRx.RadioBuffer) (dl : List Gen.SessionRx.Downlink) (maxp snr : Int) (ign : Bool)
     (e : Gen.SessionRx.EncryptedDataPayload)
     (hparse : rx.as_mut_for_read.parse = some e) (hup : e.is_uplink = false)
+    (haddr : ¬ (e.as_bytes.length : Int) > maxp + 5 → e.fhdr.dev_addr = gs.devaddr)
     (hw : TieA.Rx.SessWF gs) (hmax : 0 ≤ maxp ∧ maxp ≤ 255) (hwire : 0 ≤ e.fhdr.fcnt)
     (hdec : ∀ f, Gen.SessionRx.next_fcnt_down gs.fcnt_down e.fhdr.fcnt = some f → e.validate_mic (TieA.Rx.nwkOf gs) f = true →
       ∃ d, rx.as_mut_for_read.decrypt_in_place (some (TieA.Rx.nwkOf gs)) (some (TieA.Rx.appOf gs)) f = some d ∧ TieA.Rx.DecWF TieA.Rx.Full.Stream d) :
     (@Gen.SessionRx.Session.handle_rx RegionState TieA.Rx.Full.genOps D gs rs g rx dl maxp snr ign).bind
         (fun out => (TieA.Rx.respOf out.1).map (fun r => (r, TieA.Rx.sessOf out.2.1, out.2.2.1, TieA.Rx.cfgOf out.2.2.2.1, out.2.2.2.2.2.map TieA.Rx.dlOf)))
       = (sessionHandleRx (TieA.Rx.sessOf gs) (TieA.Rx.cfgOf g) rs (TieA.Rx.dataOf gs e (TieA.Rx.decOf gs rx e)) maxp.toNat snr ign).toOption.map (TieA.Rx.expect dl D) :=
-  TieA.Rx.Full.handle_rx_full D gs rs g rx dl maxp snr ign e hparse hup hw hmax hwire hdec
+  TieA.Rx.Full.handle_rx_full D gs rs g rx dl maxp snr ign e hparse hup haddr hw hmax hwire hdec
 
 /-- builder N — a buffer the data-frame parser rejects: `NoUpdate`, every output is the input -/
 theorem tieA_handle_rx_unparsed [Gen.SessionRx.MacOps RegionState]
@@ -50,10 +51,28 @@ theorem tieA_handle_rx_uplink_typed [Gen.SessionRx.MacOps RegionState]
     Gen.SessionRx.Session.handle_rx D gs rs g rx dl maxp snr ign = some (.NoUpdate, gs, rs, g, rx, dl) :=
   TieA.Rx.handle_rx_uplink_typed D gs rs g rx dl maxp snr ign e hparse hup
 
+/-- builder Y — a buffer the parser accepts as a downlink-typed frame that fits the window's data rate but whose FHDR
+DevAddr differs from the session's (a frame ADDRESSED TO SOMEONE ELSE): `NoUpdate`, every output is the input — whatever
+its wire counter and MIC (also a MIC that verifies under this session's NwkSKey at a fresh counter: two devices
+provisioned with the same keys), for every `ignore_mac` and every `MacOps` instance.  For the model such a buffer is NOT a
+data-frame view (`RxView.garbage`, the reference codec's `g`): `sessionHandleRx` is only ever applied to frames carrying
+the session's own DevAddr (`haddr` of `tieA_handle_rx_accept`).  Without this exit (before the fix) the method never
+compared the address and accepted such a frame: payload delivered, FCntDown advanced. -/
+theorem tieA_handle_rx_other_devaddr [Gen.SessionRx.MacOps RegionState]
+    (D : Int) (gs : Gen.SessionRx.Session) (rs : RegionState) (g : Gen.SessionRx.Configuration)
+    (rx : Gen.SessionRx.RadioBuffer) (dl : List Gen.SessionRx.Downlink) (maxp snr : Int) (ign : Bool)
+    (e : Gen.SessionRx.EncryptedDataPayload)
+    (hparse : rx.as_mut_for_read.parse = some e) (hup : e.is_uplink = false)
+    (hmax : 0 ≤ maxp ∧ maxp ≤ 255) (hfits : ¬ (e.as_bytes.length : Int) > maxp + 5)
+    (haddr : e.fhdr.dev_addr ≠ gs.devaddr) :
+    Gen.SessionRx.Session.handle_rx D gs rs g rx dl maxp snr ign = some (.NoUpdate, gs, rs, g, rx, dl) :=
+  TieA.Rx.handle_rx_other_devaddr D gs rs g rx dl maxp snr ign e hparse hup hmax hfits haddr
+
 /-- builder S: the two former hypotheses are theorems for the regenerated `handle_downlink_macs` -/
 example : @TieA.Rx.NextLowerOk TieA.Rx.Full.genOps ∧ @TieA.Rx.MacsOk TieA.Rx.Full.genOps TieA.Rx.Full.Stream := TieA.Rx.Full.genOps_ok
 
 #print axioms tieA_handle_rx_accept
 #print axioms tieA_handle_rx_unparsed
 #print axioms tieA_handle_rx_uplink_typed
+#print axioms tieA_handle_rx_other_devaddr
 end C07
